@@ -101,8 +101,10 @@ func (hs *clientHandshakeStateTLS13) decompressCert(m utlsCompressedCertificateM
 	rawMsg[2] = uint8(m.uncompressedLength >> 8)
 	rawMsg[3] = uint8(m.uncompressedLength)
 
-	n, err := decompressed.Read(rawMsg[4:])
-	if err != nil && !errors.Is(err, io.EOF) {
+	// A decompressor may return the data in several pieces (one per block or
+	// flush point), so read until the declared length is reached.
+	n, err := io.ReadFull(decompressed, rawMsg[4:])
+	if err != nil && !errors.Is(err, io.EOF) && !errors.Is(err, io.ErrUnexpectedEOF) {
 		c.sendAlert(alertBadCertificate)
 		return nil, err
 	}
@@ -112,6 +114,14 @@ func (hs *clientHandshakeStateTLS13) decompressCert(m utlsCompressedCertificateM
 		// https://datatracker.ietf.org/doc/html/rfc8879#section-4
 		c.sendAlert(alertBadCertificate)
 		return nil, fmt.Errorf("decompressed len (%d) does not match specified len (%d)", n, m.uncompressedLength)
+	}
+	// The stream must end here: more data means the actual length is larger than
+	// the declared one, and reaching the end also lets the decompressor verify
+	// its trailer (checksum).
+	var extra [1]byte
+	if k, err := io.ReadFull(decompressed, extra[:]); k > 0 || !errors.Is(err, io.EOF) {
+		c.sendAlert(alertBadCertificate)
+		return nil, fmt.Errorf("decompressed certificate message is longer than the specified len (%d) or its stream is corrupt", m.uncompressedLength)
 	}
 	certMsg := new(certificateMsgTLS13)
 	if !certMsg.unmarshal(rawMsg) {
